@@ -74,4 +74,8 @@ def run(pid, tier, replay=None):
     ck.cov["rule"] = ("one case = one transition (controller state, operation run/pos/inc/zero, set-point, feedback) of the TLC state graph for each parameter set "
                       "(with and without active output/integrator limits), replayed on the real a_pid with all five state fields compared; plus seeded 200-step integer histories; "
                       "fuzzy/neuro controllers: see parts")
+    # the C++ member functions of the same structures must behave like the C functions (Facade.tla)
+    from checks import facade
+    facade.part(ck, sc, ['pid', 'pid_neuro', 'pid_fuzzy'])
+    ck.assumptions.append('C++ member functions of a_pid, a_pid_neuro, a_pid_fuzzy: each compared with the C function it stands for on identically prepared objects with pairwise distinct arguments (object bytes, result, written arrays)')
     return ck.finish(exhaustive=not ck.violations)
